@@ -325,10 +325,11 @@ func (c *SpecCtx) ident(name string) (Term, error) {
 	if sig, ok := vc.db.Sigs[name]; ok && len(sig.Args) == 0 {
 		return Term{name, sig.Ret, nil}, nil
 	}
-	if strings.HasPrefix(name, "$ret_") && c.fr != nil {
-		if t, ok := c.fr.vc.topFrame.callRets[strings.TrimPrefix(name, "$ret_")]; ok {
+	if strings.HasPrefix(name, "$ret") && c.fr != nil {
+		key := strings.TrimPrefix(strings.TrimPrefix(name, "$ret"), "_") // $ret_x_M_0 -> x_M_0 ; $ret1_x_M_0 -> 1_x_M_0
+		if t, ok := c.fr.vc.topFrame.callRets[key]; ok {
 			if c.usedCalls != nil {
-				*c.usedCalls = append(*c.usedCalls, c.fr.vc.topFrame.callReach[strings.TrimPrefix(name, "$ret_")])
+				*c.usedCalls = append(*c.usedCalls, c.fr.vc.topFrame.callReach[key])
 			}
 			return t, nil
 		}
@@ -714,6 +715,42 @@ func (c *SpecCtx) call(e *ECall) (Term, error) {
 			return Term{fmt.Sprintf("(sl_off %s)", x.S), vc.isort(), types.Typ[types.Int]}, nil
 		}
 		return Term{fmt.Sprintf("(sl_ref %s)", x.S), "Int", nil}, nil
+	case "chpos":
+		x, err := c.eval(e.Args[0])
+		if err != nil {
+			return Term{}, err
+		}
+		return Term{fmt.Sprintf("(select %s %s)", vc.get(c.state(), vc.chposComp()), x.S), "Int", nil}, nil
+	case "chlen":
+		x, err := c.eval(e.Args[0])
+		if err != nil {
+			return Term{}, err
+		}
+		if x.T != nil {
+			if ct, ok := x.T.Underlying().(*types.Chan); ok {
+				vc.chelemFn(ct.Elem())
+			}
+		}
+		vc.chelemFn(types.Typ[types.Int])
+		return Term{fmt.Sprintf("(chlen %s)", x.S), "Int", nil}, nil
+	case "chelem":
+		x, err := c.eval(e.Args[0])
+		if err != nil {
+			return Term{}, err
+		}
+		if x.T == nil {
+			return Term{}, fmt.Errorf("chelem of untyped channel")
+		}
+		ct, ok := x.T.Underlying().(*types.Chan)
+		if !ok {
+			return Term{}, fmt.Errorf("chelem of %s", x.T)
+		}
+		i, err := c.eval(e.Args[1])
+		if err != nil {
+			return Term{}, err
+		}
+		i = c.coerceLit(i, "Int")
+		return Term{fmt.Sprintf("(%s %s %s)", vc.chelemFn(ct.Elem()), x.S, i.S), vc.sortOf(ct.Elem()), ct.Elem()}, nil
 	case "dyntype":
 		x, err := c.eval(e.Args[0])
 		if err != nil {
